@@ -56,10 +56,11 @@ CHECKS = {
         text="petgraph's astar is a dependency and is not modelled. Theorems (Coq, all weighted digraphs, all node pairs, all answers): the checker check_answer is sound - "
              "an accepted Some(p) starts at s, ends at t, follows existing edges in direction and no path of any length is lighter; an accepted None means an end is absent or t "
              "is unreachable. Every answer of the implementation for every ordered pair of every generated graph (built through add/remove histories, cycles, zero weights, ties) "
-             "is validated by the extracted checker on the specification graph of the run.",
+             "is validated by the extracted checker on the specification graph of the run. The checker is also COMPLETE (Graph/BellmanFord.v): its reference distances are closed after |nodes| rounds for every graph "
+             "whose edges join nodes (every graph the store model can reach), so it accepts every minimum-weight path and every correct None: it decides the property exactly. Edge weights up to 2^64-1 (path sums beyond u64: defect D12, fixed).",
         note=LEVEL_NOTE_COMMON + "Axioms: none. The unbounded theorem is about the checker; the implementation is covered per explored input (translation validation). "
-             "Completeness of the checker (closedness of the Bellman-Ford labels) is checked per query, not proved.",
-        technique="Coq-proved sound optimality checker (closed-labelling argument) applied to every implementation answer (translation validation)",
+             "Soundness and completeness of the checker are both theorems.",
+        technique="Coq-proved sound and complete optimality checker (closed-labelling argument; Bellman-Ford convergence by simple-walk extraction) applied to every implementation answer (translation validation)",
         design="§7 C15"),
     "C09": dict(
         text="Theorems (Coq, every operation from every reachable state, hence every interleaving): base operations change only the base graph, extra-context operations only the "
